@@ -1,4 +1,5 @@
 import RTA.Lemmas.FifoSound
+import Mathlib.Data.Finset.Max
 /-! C18: tightness of the FIFO bound — for task sets whose arrival curves are realised by
 one release sequence (periodic, sporadic with jitter, …) there is a legal FIFO schedule in
 which some job has a response time equal to the bound. -/
@@ -19,10 +20,458 @@ structure JobSet where
 def JobSet.withSched (js : JobSet) (sched : ℕ → Option ℕ) : Sys :=
   { n := js.n, task := js.task, arr := js.arr, cost := js.cost, np := fun _ _ => False, sched := sched }
 
+namespace TightLemmas
+open FifoSoundLemmas
+
+/-! ### the greedy FIFO scheduler -/
+
+/-- keep the candidate with the smaller release time (ties: the earlier candidate) -/
+def better (arr : ℕ → ℕ) (best : Option ℕ) (k : ℕ) : Option ℕ :=
+  match best with
+  | none => some k
+  | some b => if arr k < arr b then some k else some b
+
+/-- among the `k < m` with `p k`, one with the least `arr k` -/
+def pickUpTo (arr : ℕ → ℕ) (p : ℕ → Bool) : ℕ → Option ℕ
+  | 0 => none
+  | m + 1 => if p m then better arr (pickUpTo arr p m) m else pickUpTo arr p m
+
+theorem pick_spec (arr : ℕ → ℕ) (p : ℕ → Bool) : ∀ m,
+    (pickUpTo arr p m = none ∧ ∀ k, k < m → p k = false) ∨
+    (∃ j, pickUpTo arr p m = some j ∧ j < m ∧ p j = true ∧
+      ∀ k, k < m → p k = true → arr j ≤ arr k) := by
+  intro m
+  induction m with
+  | zero => left; exact ⟨rfl, fun k hk => absurd hk (Nat.not_lt_zero _)⟩
+  | succ m ih =>
+    simp only [pickUpTo]
+    by_cases hp : p m = true
+    · rw [if_pos hp]
+      right
+      rcases ih with ⟨hn, hall⟩ | ⟨j, hj, hjm, hpj, hmin⟩
+      · rw [hn]
+        refine ⟨m, rfl, by omega, hp, ?_⟩
+        intro k hk hpk
+        rcases Nat.lt_succ_iff_lt_or_eq.1 hk with h | h
+        · rw [hall k h] at hpk; cases hpk
+        · subst h; exact le_refl _
+      · rw [hj]
+        simp only [better]
+        by_cases hlt : arr m < arr j
+        · rw [if_pos hlt]
+          refine ⟨m, rfl, by omega, hp, ?_⟩
+          intro k hk hpk
+          rcases Nat.lt_succ_iff_lt_or_eq.1 hk with h | h
+          · have := hmin k h hpk; omega
+          · subst h; exact le_refl _
+        · rw [if_neg hlt]
+          refine ⟨j, rfl, by omega, hpj, ?_⟩
+          intro k hk hpk
+          rcases Nat.lt_succ_iff_lt_or_eq.1 hk with h | h
+          · exact hmin k h hpk
+          · subst h; omega
+    · rw [if_neg hp]
+      have hp' : p m = false := by simpa using hp
+      rcases ih with ⟨hn, hall⟩ | ⟨j, hj, hjm, hpj, hmin⟩
+      · left
+        refine ⟨hn, ?_⟩
+        intro k hk
+        rcases Nat.lt_succ_iff_lt_or_eq.1 hk with h | h
+        · exact hall k h
+        · subst h; exact hp'
+      · right
+        refine ⟨j, hj, by omega, hpj, ?_⟩
+        intro k hk hpk
+        rcases Nat.lt_succ_iff_lt_or_eq.1 hk with h | h
+        · exact hmin k h hpk
+        · subst h; rw [hp'] at hpk; cases hpk
+
+/-- pending w.r.t. a service vector `σ` at time `t` -/
+def pend (js : JobSet) (σ : ℕ → ℕ) (t : ℕ) : ℕ → Bool :=
+  fun k => decide (js.arr k ≤ t ∧ σ k < js.cost k)
+
+/-- service vector of the greedy FIFO scheduler -/
+def sig (js : JobSet) : ℕ → ℕ → ℕ
+  | 0 => fun _ => 0
+  | t + 1 => fun k =>
+    sig js t k + if pickUpTo js.arr (pend js (sig js t) t) js.n = some k then 1 else 0
+
+/-- the greedy FIFO scheduler -/
+def gsched (js : JobSet) (t : ℕ) : Option ℕ := pickUpTo js.arr (pend js (sig js t) t) js.n
+
+theorem svc_gsched (js : JobSet) (k : ℕ) : ∀ t, svc (js.withSched (gsched js)) k t = sig js t k := by
+  intro t
+  induction t with
+  | zero => rfl
+  | succ t ih =>
+    show svc (js.withSched (gsched js)) k t + (if gsched js t = some k then 1 else 0)
+      = sig js t k + (if gsched js t = some k then 1 else 0)
+    rw [ih]
+
+theorem pending_gsched (js : JobSet) (k t : ℕ) :
+    Pending (js.withSched (gsched js)) k t ↔ pend js (sig js t) t k = true := by
+  unfold Pending
+  rw [svc_gsched]
+  simp [pend, JobSet.withSched]
+
+/-! ### the lower bound -/
+
+theorem sum_sched_le_one (s : Sys) (t : ℕ) :
+    (∑ k ∈ range s.n, if s.sched t = some k then 1 else 0) ≤ 1 := by
+  cases s.sched t with
+  | none => simp
+  | some j =>
+    simp only [Option.some.injEq]
+    rw [sum_ite_eq]
+    split <;> omega
+
+theorem served_step_le (s : Sys) (lo hi t : ℕ) : served s lo hi (t + 1) ≤ served s lo hi t + 1 := by
+  have h1 : served s lo hi (t + 1)
+      ≤ served s lo hi t + ∑ k ∈ range s.n, if s.sched t = some k then 1 else 0 := by
+    unfold served
+    rw [← sum_add_distrib]
+    apply sum_le_sum
+    intro k _
+    simp only [svc]
+    split <;> omega
+  have h2 := sum_sched_le_one s t
+  omega
+
+theorem served_le (s : Sys) (lo hi a : ℕ) : ∀ len, served s lo hi (a + len) ≤ served s lo hi a + len := by
+  intro len
+  induction len with
+  | zero => simp
+  | succ len ih =>
+    have := served_step_le s lo hi (a + len)
+    have e : a + (len + 1) = a + len + 1 := by omega
+    rw [e]
+    omega
+
+open Classical in
+/-- completion time of job `k` (0 if it never completes) -/
+noncomputable def complTime (s : Sys) (k : ℕ) : ℕ :=
+  if h : ∃ t, svc s k t = s.cost k then Nat.find h else 0
+
+theorem complTime_spec (s : Sys) (k : ℕ) (h : ∃ t, svc s k t = s.cost k) :
+    svc s k (complTime s k) = s.cost k := by
+  classical
+  unfold complTime
+  rw [dif_pos h]
+  exact Nat.find_spec h
+
+theorem complTime_le (s : Sys) (k t : ℕ) (ht : svc s k t = s.cost k) : complTime s k ≤ t := by
+  classical
+  have h : ∃ t, svc s k t = s.cost k := ⟨t, ht⟩
+  unfold complTime
+  rw [dif_pos h]
+  exact Nat.find_min' h ht
+
+/-- lower bound for a window starting at an arbitrary `t₀`: among the jobs released at
+`t₀ + A` the one completing last completes no earlier than `t₀ + W`, `W` the total cost of
+the jobs released in `[t₀, t₀ + A]` (whatever was released before `t₀`) -/
+theorem lower_from (s : Sys) (hl : FifoLegal s) (t₀ A : ℕ)
+    (hex : ∃ j, j < s.n ∧ s.arr j = t₀ + A) (hpos : ∀ k, k < s.n → 1 ≤ s.cost k) :
+    ∃ j, j < s.n ∧ s.arr j = t₀ + A ∧
+      ∀ R, MeetsBound s j R → work s t₀ (t₀ + A + 1) ≤ A + R := by
+  classical
+  by_cases hall : ∀ j, j < s.n → s.arr j = t₀ + A → ∃ t, svc s j t = s.cost j
+  swap
+  · push Not at hall
+    obtain ⟨j, hj, hja, hnc⟩ := hall
+    exact ⟨j, hj, hja, fun R hR => absurd hR (hnc (s.arr j + R))⟩
+  have hne : ((range s.n).filter (fun k => s.arr k = t₀ + A)).Nonempty := by
+    obtain ⟨j, hj, hja⟩ := hex
+    exact ⟨j, by simp [hj, hja]⟩
+  obtain ⟨j, hjS, hmax⟩ := Finset.exists_max_image _ (complTime s) hne
+  have hj : j < s.n ∧ s.arr j = t₀ + A := by simpa using hjS
+  have hjF : svc s j (complTime s j) = s.cost j := complTime_spec s j (hall j hj.1 hj.2)
+  have hmin : ∀ t, svc s j t = s.cost j → complTime s j ≤ t := fun t ht => complTime_le s j t ht
+  generalize complTime s j = F at hmax hjF hmin
+  have hcj := hpos j hj.1
+  have hF1 : 1 ≤ F := by
+    rcases Nat.eq_zero_or_pos F with h | h
+    · subst h
+      have : svc s j 0 = 0 := rfl
+      omega
+    · exact h
+  obtain ⟨F', rfl⟩ : ∃ F', F = F' + 1 := ⟨F - 1, by omega⟩
+  have hlt : svc s j F' < s.cost j := by
+    have h1 := svc_le_cost' hl j F'
+    have h2 : svc s j F' ≠ s.cost j := fun h => by have := hmin F' h; omega
+    omega
+  have hsch : s.sched F' = some j := by
+    by_contra hns
+    simp only [svc, if_neg hns] at hjF
+    omega
+  have hpj := (hl.valid F' j hsch).2
+  have hpj1 : s.arr j ≤ F' := hpj.1
+  have hdone : ∀ k, k < s.n → t₀ ≤ s.arr k → s.arr k < t₀ + A + 1 →
+      svc s k (F' + 1) = s.cost k := by
+    intro k hk h1 h2
+    by_cases hka : s.arr k = t₀ + A
+    · have hkS : k ∈ (range s.n).filter (fun k => s.arr k = t₀ + A) := by simp [hk, hka]
+      exact done_mono hl k (hmax k hkS) (complTime_spec s k (hall k hk hka))
+    · have hnp : ¬ Pending s k F' := fun hp => by
+        have := hl.fifo F' j hsch k hk hp
+        omega
+      have hd : svc s k F' = s.cost k := by
+        unfold Pending at hnp
+        have := svc_le_cost' hl k F'
+        omega
+      exact done_mono hl k (by omega) hd
+  have heq : served s t₀ (t₀ + A + 1) (F' + 1) = work s t₀ (t₀ + A + 1) := by
+    unfold served work
+    apply sum_congr rfl
+    intro k hk
+    split
+    next h => exact hdone k (mem_range.1 hk) h.1 h.2
+    next => rfl
+  have hle : served s t₀ (t₀ + A + 1) (F' + 1) ≤ F' + 1 - t₀ := by
+    have := served_le s t₀ (t₀ + A + 1) t₀ (F' + 1 - t₀)
+    rw [served_zero_at_lo hl] at this
+    have e : t₀ + (F' + 1 - t₀) = F' + 1 := by omega
+    rw [e] at this
+    omega
+  refine ⟨j, hj.1, hj.2, ?_⟩
+  intro R hR
+  have := hmin (s.arr j + R) hR
+  omega
+
+/-! ### workload of a task whose jobs all cost the same -/
+
+theorem maxList_mem_of_pos : ∀ l : List ℕ, 0 < maxList l → maxList l ∈ l
+  | [], h => by simp [maxList] at h
+  | x :: xs, h => by
+    simp only [maxList] at h ⊢
+    rcases Nat.le_total x (maxList xs) with hle | hle
+    · rw [Nat.max_eq_right hle] at h ⊢
+      exact List.mem_cons_of_mem _ (maxList_mem_of_pos xs h)
+    · rw [Nat.max_eq_left hle]
+      exact List.mem_cons_self
+
+theorem getD_eq_getElem' {α : Type} (l : List α) (i : ℕ) (d : α) (h : i < l.length) :
+    l.getD i d = l[i] := (List.getElem_eq_getD d).symm
+
+theorem cnt_append (a b : List ℕ) (t d : ℕ) : cnt (a ++ b) t d = cnt a t d + cnt b t d := by
+  unfold cnt
+  rw [List.filter_append, List.length_append]
+
+theorem workOf_const_aux (s : Sys) (i C t d : ℕ)
+    (hC : ∀ k, k < s.n → s.task k = i → s.cost k = C) :
+    ∀ m, m ≤ s.n →
+      (∑ k ∈ range m, if s.task k = i ∧ t ≤ s.arr k ∧ s.arr k < t + d then s.cost k else 0)
+        = C * cnt (((List.range m).filter (fun k => s.task k = i)).map s.arr) t d := by
+  intro m
+  induction m with
+  | zero => intro _; simp [cnt_nil]
+  | succ m ih =>
+    intro hm
+    rw [Finset.sum_range_succ, ih (by omega), List.range_succ, List.filter_append,
+      List.map_append, cnt_append, Nat.mul_add]
+    congr 1
+    by_cases h : s.task m = i
+    · have e : List.filter (fun k => decide (s.task k = i)) [m] = [m] := by simp [h]
+      rw [e, List.map_cons, List.map_nil, cnt_cons, cnt_nil, hC m (by omega) h]
+      by_cases hw : t ≤ s.arr m ∧ s.arr m < t + d
+      · simp [h, hw]
+      · simp [h, hw]
+    · have e : List.filter (fun k => decide (s.task k = i)) [m] = [] := by simp [h]
+      rw [e, List.map_nil, cnt_nil]
+      simp [h]
+
+/-- if every job of task `i` costs `C`, the task's workload in a window is `C` times the
+number of its releases in the window -/
+theorem workOf_const (s : Sys) (i C t d : ℕ)
+    (hC : ∀ k, k < s.n → s.task k = i → s.cost k = C) :
+    workOf s (fun x => x = i) t (t + d) = C * cnt (relsOf s i) t d := by
+  unfold workOf relsOf
+  exact workOf_const_aux s i C t d hC s.n (le_refl _)
+
+/-- with scalar WCETs attained by every job and release counts equal to the arrival bounds
+the workload of the window `[t₀, t₀ + d)` IS the aggregate request bound -/
+theorem work_eq_need (s : Sys) (ts : List (Arr × ℕ))
+    (hc : Compliant s (ts.map fun p => (p.1, Cost.scalar p.2)))
+    (hcost : ∀ k, k < s.n → s.cost k = (ts.getD (s.task k) default).2)
+    (t₀ d : ℕ)
+    (hreal : ∀ i, i < ts.length → cnt (relsOf s i) t₀ d = (ts.getD i default).1.N d) :
+    work s t₀ (t₀ + d) = (taskSetRB (ts.map fun p => (p.1, Cost.scalar p.2))).need d := by
+  rw [work_eq_sum_workOf s _ hc.task_lt, need_taskSetRB,
+    ← sum_range_getElem? (ts.map fun p => (p.1, Cost.scalar p.2)) (fun p => p.2.ofJobs (p.1.N d))]
+  apply Finset.sum_congr rfl
+  intro i hi
+  have hi' := mem_range.1 hi
+  have hi2 : i < ts.length := by simpa using hi'
+  rw [List.getElem?_eq_getElem hi', List.getElem_map]
+  simp only [Cost.ofJobs]
+  rw [workOf_const s i (ts.getD i default).2 t₀ d ?_, hreal i hi2, getD_eq_getElem' _ _ _ hi2]
+  intro k hk hki
+  rw [hcost k hk, hki]
+
+/-- core of the attainment theorem, for a window starting at an arbitrary `t₀` -/
+theorem attained_core (s : Sys) (hl : FifoLegal s) (ts : List (Arr × ℕ))
+    (hwf : ∀ p ∈ ts, p.1.WF ∧ p.1.Exact ∧ 1 ≤ p.2)
+    (hc : Compliant s (ts.map fun p => (p.1, Cost.scalar p.2)))
+    (hcost : ∀ k, k < s.n → s.cost k = (ts.getD (s.task k) default).2)
+    (limit R L t₀ : ℕ)
+    (hR : fifoRta (taskSetRB (ts.map fun p => (p.1, Cost.scalar p.2))) limit = .ok R)
+    (hL : naiveSolve (fun x => (taskSetRB (ts.map fun p => (p.1, Cost.scalar p.2))).need x) limit = .ok L)
+    (hreal : ∀ i, i < ts.length → ∀ Δ, Δ ≤ L →
+      cnt (relsOf s i) t₀ Δ = (ts.getD i default).1.N Δ) (hRpos : 0 < R) :
+    ∃ j, j < s.n ∧ MeetsBound s j R ∧ ∀ R', R' < R → ¬ MeetsBound s j R' := by
+  have hwf' : ∀ p ∈ ts.map (fun p => (p.1, Cost.scalar p.2)), p.1.WF ∧ p.2.WF := by
+    intro p hp
+    obtain ⟨q, hq, rfl⟩ := List.mem_map.1 hp
+    exact ⟨(hwf q hq).1, trivial⟩
+  have hex' : ∀ p ∈ ts.map (fun p => (p.1, Cost.scalar p.2)), p.1.Exact ∧ p.2.StrictPos := by
+    intro p hp
+    obtain ⟨q, hq, rfl⟩ := List.mem_map.1 hp
+    exact ⟨(hwf q hq).2.1, Cost.scalar_strictPos _ (hwf q hq).2.2⟩
+  have h1 : (taskSetRB (ts.map fun p => (p.1, Cost.scalar p.2))).ArrWF := by
+    unfold taskSetRB; unfold RB.ArrWF
+    exact arrWFList_map _ (fun p hp => (hwf' p hp).1)
+  have h2 : (taskSetRB (ts.map fun p => (p.1, Cost.scalar p.2))).Exact := by
+    unfold taskSetRB; unfold RB.Exact
+    exact exactList_map _ hex'
+  have hmeets := fifo_sound_taskset s hl _ hwf' hex' hc limit R hR
+  have hlim : 1 ≤ limit := by
+    rcases Nat.eq_zero_or_pos limit with h0 | h
+    · subst h0
+      unfold fifoRta at hR
+      rw [PruneFPLemmas.search_limit_zero] at hR
+      simp at hR
+    · exact h
+  rw [fifo_eq_naive _ h1 h2 limit hlim] at hR
+  unfold naiveFifo at hR
+  rw [hL] at hR
+  simp only [Res.ok.injEq] at hR
+  generalize hneed : (taskSetRB (ts.map fun p => (p.1, Cost.scalar p.2))).need = need at hR
+  have hmono : ∀ a b, a ≤ b → need a ≤ need b := by
+    intro a b hab; rw [← hneed]; exact RB.need_mono _ h1 h2 a b hab
+  have hzero : need 0 = 0 := by rw [← hneed]; exact RB.need_zero _
+  have hwork : ∀ d, d ≤ L → work s t₀ (t₀ + d) = need d := by
+    intro d hd
+    rw [← hneed]
+    exact work_eq_need s ts hc hcost t₀ d (fun i hi => hreal i hi d hd)
+  -- the maximum is attained
+  have hmem : R ∈ (List.range L).map fun A => need (A + 1) - A := by
+    rw [← hR]
+    exact maxList_mem_of_pos _ (by rw [hR]; exact hRpos)
+  obtain ⟨A, hA, hgA⟩ := List.mem_map.1 hmem
+  have hAL : A < L := List.mem_range.1 hA
+  have hgA : need (A + 1) - A = R := hgA
+  -- at an increase point
+  have hinc : need A < need (A + 1) := by
+    rcases Nat.eq_zero_or_pos A with h0 | hpos
+    · subst h0; omega
+    · have hle : need (A - 1 + 1) - (A - 1) ≤ R := by
+        rw [← hR]
+        apply le_maxList_of_mem
+        exact List.mem_map.2 ⟨A - 1, List.mem_range.2 (by omega), rfl⟩
+      rw [Nat.sub_add_cancel hpos] at hle
+      have := hmono A (A + 1) (by omega)
+      omega
+  have hw1 := hwork (A + 1) (by omega)
+  have hw0 := hwork A (by omega)
+  -- some job is released exactly at `t₀ + A`
+  have hex : ∃ j, j < s.n ∧ s.arr j = t₀ + A := by
+    by_contra hno
+    push Not at hno
+    have : work s t₀ (t₀ + (A + 1)) = work s t₀ (t₀ + A) := by
+      unfold work
+      apply sum_congr rfl
+      intro k hk
+      have := hno k (mem_range.1 hk)
+      by_cases hw : t₀ ≤ s.arr k ∧ s.arr k < t₀ + A
+      · rw [if_pos hw, if_pos (by omega)]
+      · rw [if_neg hw, if_neg (by omega)]
+    omega
+  have hposc : ∀ k, k < s.n → 1 ≤ s.cost k := by
+    intro k hk
+    have hlt := hc.task_lt k hk
+    rw [List.length_map] at hlt
+    rw [hcost k hk, getD_eq_getElem' _ _ _ hlt]
+    exact (hwf _ (List.getElem_mem hlt)).2.2
+  obtain ⟨j, hj, hja, hlow⟩ := lower_from s hl t₀ A hex hposc
+  refine ⟨j, hj, hmeets j hj, ?_⟩
+  intro R' hR' hm
+  have := hlow R' hm
+  have e : t₀ + A + 1 = t₀ + (A + 1) := by omega
+  rw [e, hw1] at this
+  omega
+
+/-! ### shifting release sequences -/
+
+theorem GapsGe_map_add (T c : ℕ) : ∀ l, GapsGe T l → GapsGe T (l.map (· + c)) := by
+  intro l
+  induction l with
+  | nil => intro _; simp [GapsGe]
+  | cons x l ih =>
+    cases l with
+    | nil => intro _; simp [GapsGe]
+    | cons y l =>
+      intro h
+      rw [GapsGe] at h
+      rw [List.map_cons, List.map_cons, GapsGe]
+      exact ⟨by omega, ih h.2⟩
+
+theorem DelayedBy_map_add (J c : ℕ) : ∀ a r, DelayedBy J a r →
+    DelayedBy J (a.map (· + c)) (r.map (· + c)) := by
+  intro a
+  induction a with
+  | nil =>
+    intro r h
+    cases r with
+    | nil => simp [DelayedBy]
+    | cons y r => simp [DelayedBy] at h
+  | cons x a ih =>
+    intro r h
+    cases r with
+    | nil => simp [DelayedBy] at h
+    | cons y r =>
+      rw [DelayedBy] at h
+      rw [List.map_cons, List.map_cons, DelayedBy]
+      exact ⟨by omega, by omega, ih r h.2.2⟩
+
+theorem cnt_map_add (l : List ℕ) (c t Δ : ℕ) : cnt (l.map (· + c)) (t + c) Δ = cnt l t Δ := by
+  induction l with
+  | nil => rfl
+  | cons x l ih =>
+    rw [List.map_cons, cnt_cons, cnt_cons, ih]
+    congr 1
+    by_cases h : t ≤ x ∧ x < t + Δ
+    · rw [if_pos h, if_pos (by omega)]
+    · rw [if_neg h, if_neg (by omega)]
+
+end TightLemmas
+open TightLemmas
+
 /-- every job set (with positive costs) has a legal FIFO schedule -/
 theorem exists_fifo_schedule (js : JobSet) (hpos : ∀ k, k < js.n → 1 ≤ js.cost k) :
     ∃ sched, FifoLegal (js.withSched sched) := by
-  sorry
+  have _ := hpos
+  refine ⟨gsched js, ⟨⟨?_, ?_⟩, ?_⟩⟩
+  · intro t j h
+    have h' : pickUpTo js.arr (pend js (sig js t) t) js.n = some j := h
+    rcases pick_spec js.arr (pend js (sig js t) t) js.n with ⟨hn, _⟩ | ⟨j', hj', hlt, hp, _⟩
+    · rw [hn] at h'; cases h'
+    · rw [hj'] at h'
+      cases h'
+      exact ⟨hlt, (pending_gsched js _ t).2 hp⟩
+  · rintro t ⟨k, hk, hpk⟩
+    have hk' : k < js.n := hk
+    rcases pick_spec js.arr (pend js (sig js t) t) js.n with ⟨_, hall⟩ | ⟨j', hj', _, _, _⟩
+    · have := (pending_gsched js k t).1 hpk
+      rw [hall k hk'] at this
+      cases this
+    · exact ⟨j', hj'⟩
+  · intro t j h k hk hpk
+    have h' : pickUpTo js.arr (pend js (sig js t) t) js.n = some j := h
+    have hk' : k < js.n := hk
+    rcases pick_spec js.arr (pend js (sig js t) t) js.n with ⟨hn, _⟩ | ⟨j', hj', _, _, hmin⟩
+    · rw [hn] at h'; cases h'
+    · rw [hj'] at h'
+      cases h'
+      exact hmin k hk' ((pending_gsched js k t).1 hpk)
 
 /-- lower bound valid in EVERY legal FIFO schedule: if the jobs released in `[0, A]` have
 total cost `W`, nothing is released before time 0 … (trivially) and the processor serves one
@@ -31,7 +480,17 @@ no earlier than `W`; hence some job released at `A` has response time at least `
 theorem fifo_response_lower_bound (s : Sys) (hl : FifoLegal s) (A : ℕ)
     (hex : ∃ j, j < s.n ∧ s.arr j = A) (hpos : ∀ k, k < s.n → 1 ≤ s.cost k) :
     ∃ j, j < s.n ∧ s.arr j = A ∧ ∀ R, MeetsBound s j R → work s 0 (A + 1) ≤ A + R := by
-  sorry
+  have := lower_from s hl 0 A (by simpa using hex) hpos
+  simpa using this
+
+/-- the same for a window starting at an arbitrary time `t₀` (whatever was released before
+`t₀`): some job released at `t₀ + A` has response time at least `W - A`, `W` the total cost
+of the jobs released in `[t₀, t₀ + A]` -/
+theorem fifo_response_lower_bound_from (s : Sys) (hl : FifoLegal s) (t₀ A : ℕ)
+    (hex : ∃ j, j < s.n ∧ s.arr j = t₀ + A) (hpos : ∀ k, k < s.n → 1 ≤ s.cost k) :
+    ∃ j, j < s.n ∧ s.arr j = t₀ + A ∧
+      ∀ R, MeetsBound s j R → work s t₀ (t₀ + A + 1) ≤ A + R :=
+  lower_from s hl t₀ A hex hpos
 
 /-- the release sequence `rels` realises the arrival model from time 0: the number of
 releases in `[0, Δ)` is exactly `number_arrivals(Δ)`, for every `Δ` up to `H` -/
@@ -40,13 +499,117 @@ def RealisesUpTo (a : Arr) (rels : List ℕ) (H : ℕ) : Prop := ∀ Δ, Δ ≤ 
 /-- the critical-instant sequence of a sporadic task with jitter, shifted to start at 0 -/
 def criticalFromZero (T J n : ℕ) : List ℕ := (List.range n).map fun k => k * T - J
 
-theorem criticalFromZero_admissible (T J n : ℕ) (hT : 1 ≤ T) :
-    Admissible (.sporadic T J) (criticalFromZero T J n) := by
-  sorry
+
 
 theorem criticalFromZero_realises (T J n H : ℕ) (hT : 1 ≤ T) (hn : (Arr.sporadic T J).N H ≤ n) :
     RealisesUpTo (.sporadic T J) (criticalFromZero T J n) H := by
-  sorry
+  intro Δ hΔ
+  have hn' : (Arr.sporadic T J).N Δ ≤ n := le_trans (sporadic_N_mono T J hT Δ H hΔ) hn
+  rw [sporadic_N_eq] at hn' ⊢
+  split
+  next h => subst h; exact cnt_zero _ _
+  next h =>
+    rw [if_neg h] at hn'
+    unfold cnt criticalFromZero
+    rw [List.filter_map, List.length_map]
+    have : (List.range n).filter ((fun r => decide (0 ≤ r) && decide (r < 0 + Δ)) ∘
+        fun k => k * T - J) = (List.range n).filter (fun k => decide (k * T < Δ + J)) := by
+      apply List.filter_congr
+      intro k _
+      simp only [Function.comp]
+      rw [Bool.eq_iff_iff]
+      simp only [Bool.and_eq_true, decide_eq_true_eq]
+      omega
+    rw [this, length_filter_range_lt T _ hT]
+    omega
+
+/-- `criticalFromZero_admissible` is FALSE as stated: with `T = J = 1` the first two
+releases both fall on time 0, but admissible arrivals are at least `T = 1` apart and not
+later than the releases -/
+theorem criticalFromZero_not_admissible :
+    ¬ Admissible (.sporadic 1 1) (criticalFromZero 1 1 2) := by
+  rw [Admissible]
+  rintro ⟨arrivals, hg, hd⟩
+  have e : criticalFromZero 1 1 2 = [0, 0] := by decide
+  rw [e] at hd
+  rcases arrivals with _ | ⟨a, _ | ⟨b, _ | ⟨c, rest⟩⟩⟩
+  · simp [DelayedBy] at hd
+  · simp [DelayedBy] at hd
+  · simp only [DelayedBy, GapsGe] at hd hg
+    omega
+  · simp [DelayedBy] at hd
+
+/-! ### replacement: realisation from a start time `t₀` -/
+
+/-- the release sequence `rels` realises the arrival model from time `t₀`: nothing is
+released before `t₀` and the number of releases in `[t₀, t₀ + Δ)` is exactly
+`number_arrivals(Δ)`, for every `Δ` up to `H` -/
+def RealisesFrom (a : Arr) (rels : List ℕ) (t₀ H : ℕ) : Prop :=
+  (∀ r ∈ rels, t₀ ≤ r) ∧ ∀ Δ, Δ ≤ H → cnt rels t₀ Δ = a.N Δ
+
+theorem RealisesUpTo_iff_RealisesFrom (a : Arr) (rels : List ℕ) (H : ℕ) :
+    RealisesUpTo a rels H ↔ RealisesFrom a rels 0 H :=
+  ⟨fun h => ⟨fun _ _ => Nat.zero_le _, h⟩, fun h => h.2⟩
+
+/-- the (admissible, `criticalInstant_admissible`) critical-instant sequence of a sporadic
+task with jitter attains the arrival bound for every window starting at `J` -/
+theorem criticalInstant_realises_from (T J n H : ℕ) (hT : 1 ≤ T)
+    (hn : (Arr.sporadic T J).N H ≤ n) :
+    ∀ Δ, Δ ≤ H → cnt (criticalInstant T J n) J Δ = (Arr.sporadic T J).N Δ := by
+  intro Δ hΔ
+  exact sporadic_attained T J Δ n hT (le_trans (sporadic_N_mono T J hT Δ H hΔ) hn)
+
+theorem criticalInstant_realisesFrom (T J n H : ℕ) (hT : 1 ≤ T)
+    (hn : (Arr.sporadic T J).N H ≤ n) :
+    RealisesFrom (.sporadic T J) (criticalInstant T J n) J H := by
+  refine ⟨?_, criticalInstant_realises_from T J n H hT hn⟩
+  intro r hr
+  unfold criticalInstant at hr
+  obtain ⟨k, _, rfl⟩ := List.mem_map.1 hr
+  exact Nat.le_max_right _ _
+
+/-- the critical-instant sequence delayed so that its critical window starts at a common
+time `t₀ ≥ J` (to align tasks with different jitters) -/
+def criticalInstantAt (T J n t₀ : ℕ) : List ℕ := (criticalInstant T J n).map (· + (t₀ - J))
+
+theorem criticalInstantAt_admissible (T J n t₀ : ℕ) (hT : 1 ≤ T) :
+    Admissible (.sporadic T J) (criticalInstantAt T J n t₀) := by
+  have h := criticalInstant_admissible T J n hT
+  rw [Admissible] at h ⊢
+  obtain ⟨arrivals, hg, hd⟩ := h
+  exact ⟨arrivals.map (· + (t₀ - J)), GapsGe_map_add T _ _ hg, DelayedBy_map_add J _ _ _ hd⟩
+
+theorem criticalInstantAt_realisesFrom (T J n H t₀ : ℕ) (hT : 1 ≤ T) (hJ : J ≤ t₀)
+    (hn : (Arr.sporadic T J).N H ≤ n) :
+    RealisesFrom (.sporadic T J) (criticalInstantAt T J n t₀) t₀ H := by
+  obtain ⟨h1, h2⟩ := criticalInstant_realisesFrom T J n H hT hn
+  constructor
+  · intro r hr
+    unfold criticalInstantAt at hr
+    obtain ⟨r', hr', rfl⟩ := List.mem_map.1 hr
+    have := h1 r' hr'
+    omega
+  · intro Δ hΔ
+    obtain ⟨c, rfl⟩ : ∃ c, t₀ = J + c := ⟨t₀ - J, by omega⟩
+    unfold criticalInstantAt
+    rw [← h2 Δ hΔ, Nat.add_sub_cancel_left]
+    exact cnt_map_add _ _ _ _
+
+/-- C18 for FIFO, windows starting at a common time `t₀`: if every task's releases realise
+its arrival curve from `t₀` up to the busy-window length, all jobs execute for their scalar
+WCET, and the analysis returns `Ok(R)` with `R > 0`, then in EVERY legal FIFO schedule of
+that job set some job has response time exactly `R` -/
+theorem fifo_bound_attained_from (s : Sys) (hl : FifoLegal s) (ts : List (Arr × ℕ))
+    (hwf : ∀ p ∈ ts, p.1.WF ∧ p.1.Exact ∧ 1 ≤ p.2)
+    (hc : Compliant s (ts.map fun p => (p.1, Cost.scalar p.2)))
+    (hcost : ∀ k, k < s.n → s.cost k = (ts.getD (s.task k) default).2)
+    (limit R L t₀ : ℕ)
+    (hR : fifoRta (taskSetRB (ts.map fun p => (p.1, Cost.scalar p.2))) limit = .ok R)
+    (hL : naiveSolve (fun x => (taskSetRB (ts.map fun p => (p.1, Cost.scalar p.2))).need x) limit = .ok L)
+    (hreal : ∀ i, i < ts.length → RealisesFrom (ts.getD i default).1 (relsOf s i) t₀ L)
+    (hRpos : 0 < R) :
+    ∃ j, j < s.n ∧ MeetsBound s j R ∧ ∀ R', R' < R → ¬ MeetsBound s j R' :=
+  attained_core s hl ts hwf hc hcost limit R L t₀ hR hL (fun i hi => (hreal i hi).2) hRpos
 
 /-- C18 for FIFO: if every task's releases realise its arrival curve up to the busy-window
 length, all jobs execute for their scalar WCET, and the analysis returns `Ok(R)` with
@@ -59,7 +622,7 @@ theorem fifo_bound_attained (s : Sys) (hl : FifoLegal s) (ts : List (Arr × ℕ)
     (limit R L : ℕ) (hR : fifoRta (taskSetRB (ts.map fun p => (p.1, Cost.scalar p.2))) limit = .ok R)
     (hL : naiveSolve (fun x => (taskSetRB (ts.map fun p => (p.1, Cost.scalar p.2))).need x) limit = .ok L)
     (hreal : ∀ i, i < ts.length → RealisesUpTo (ts.getD i default).1 (relsOf s i) L) (hRpos : 0 < R) :
-    ∃ j, j < s.n ∧ MeetsBound s j R ∧ ∀ R', R' < R → ¬ MeetsBound s j R' := by
-  sorry
+    ∃ j, j < s.n ∧ MeetsBound s j R ∧ ∀ R', R' < R → ¬ MeetsBound s j R' :=
+  attained_core s hl ts hwf hc hcost limit R L 0 hR hL (fun i hi => hreal i hi) hRpos
 
 end RTA.Sched
